@@ -292,6 +292,7 @@ func TestVerifC14(t *testing.T) {
 	// merge shapes: every way in which 3 (4) goroutines of one bucket can differ per
 	// frame, so that every order of "first merge here, later merge there" occurs
 	shapes := c14MergeShapes(r.Thorough())
+	shapes = append(shapes, c14LargeSnapshots()...)
 	r.Set("merge_shape_snapshots", len(shapes))
 	nAgg := 6 // Aggregate x4, Aggregated.ToHTML, Snapshot.ToHTML
 	for si := range shapes {
@@ -483,4 +484,30 @@ func c14RacePass(t *testing.T, r *h.Run, inputs []c14Input, ops []c14Op) {
 		}
 	}
 	r.Sample(map[string]any{"part": "race", "operations": len(ops), "snapshots": len(inputs)})
+}
+
+// c14LargeSnapshots: dumps of 130 and 260 goroutines printed in an order that is
+// sorted by nothing (states, depths, ids and arguments rotate with different periods):
+// paths that only exist for large snapshots must leave the snapshot alone too.
+func c14LargeSnapshots() []c14Input {
+	var out []c14Input
+	states := []string{"chan receive", "select", "IO wait", "semacquire, 3 minutes", "sleep", "chan send, locked to thread", "syscall"}
+	for _, n := range []int{130, 260} {
+		var b strings.Builder
+		b.WriteString("panic: boom\n\ngoroutine 900 [running]:\nmain.main()\n\t/gp/src/foo/main.go:5 +0x1\n\n")
+		for i := 0; i < n; i++ {
+			id := 1 + (i*37)%n
+			fmt.Fprintf(&b, "goroutine %d [%s]:\n", id, states[(i*3)%len(states)])
+			depth := 1 + (i*5)%4
+			for d := 0; d < depth; d++ {
+				fmt.Fprintf(&b, "main.f%d(0x%x, 0x%x)\n\t/gp/src/foo/w%d.go:%d +0x1\n", (i+d)%3, 0xc000010000+uint64(i%7)*0x10, i%5, d%2, 10+d)
+			}
+			if i%4 == 0 {
+				fmt.Fprintf(&b, "created by main.start in goroutine 900\n\t/gp/src/foo/main.go:%d +0x1\n", 20+i%2)
+			}
+			b.WriteString("\n")
+		}
+		out = append(out, c14Input{name: fmt.Sprintf("large-%d-unsorted", n), text: []byte(b.String())})
+	}
+	return out
 }
